@@ -232,6 +232,8 @@ Fixpoint expr_eqb (a b : expr) : bool :=
   | EUValue x, EUValue y => expr_eqb x y
   | ECustomNew t x, ECustomNew t' x' => String.eqb t t' && expr_eqb x x'
   | ECustomRaw x, ECustomRaw y => expr_eqb x y
+  | EWrapBin o x y, EWrapBin o' x' y' => binop_eqb o o' && expr_eqb x x' && expr_eqb y y'
+  | EDebugAssert c x, EDebugAssert c' x' => expr_eqb c c' && expr_eqb x x'
   | _, _ => false
   end.
 
